@@ -2339,6 +2339,318 @@ theorem rawLearners_eq_spec (r : Result) (x : XSpec) (lc : List Col) (pc : Optio
         · exact groupedYs_eq fin lc x span
 
 
+/-! ## Part 6: well-formedness is preserved; chains -/
+
+
+theorem take_range'_1 (s : Nat) : ∀ (n k : Nat), (List.range' s n).take k = List.range' s (min k n) := by
+  intro n
+  induction n generalizing s with
+  | zero => intro k; simp
+  | succ n ih =>
+    intro k
+    cases k with
+    | zero => simp
+    | succ k =>
+      rw [List.range'_succ, List.take_succ_cons, ih]
+      have : min (k + 1) (n + 1) = min k n + 1 := by omega
+      rw [this, List.range'_succ]
+
+/-- `runs` undoes the concatenation of non-empty blocks of equal id triple with distinct triples -/
+theorem runs_block (t : Triple) (b : List IRow) (rest : List IRow) (G' : List (Triple × List IRow))
+    (hb : b ≠ []) (ht : ∀ row ∈ b, row.triple = t) (hrest : runs rest = G')
+    (hhead : ∀ g ∈ G'.head?, g.1 ≠ t) : runs (b ++ rest) = (t, b) :: G' := by
+  induction b with
+  | nil => exact absurd rfl hb
+  | cons x b' ih =>
+    have hx : x.triple = t := ht x (by simp)
+    cases b' with
+    | nil =>
+      simp only [List.cons_append, List.nil_append, runs, hrest]
+      cases G' with
+      | nil => simp [hx]
+      | cons g rest' =>
+        obtain ⟨t', gl⟩ := g
+        have h1 : ¬ t' = x.triple := by rw [hx]; exact hhead (t', gl) (by simp)
+        have h2 : ¬ t' = t := hhead (t', gl) (by simp)
+        simp [h1, h2, hx]
+    | cons y b'' =>
+      have := ih (by simp) (fun row hrow => ht row (by simp [hrow]))
+      simp only [List.cons_append] at this ⊢
+      rw [runs, this]
+      simp [hx]
+
+theorem runs_blocks (G : List (Triple × List IRow)) (hnd : (G.map (·.1)).Nodup)
+    (hok : ∀ g ∈ G, g.2 ≠ [] ∧ ∀ row ∈ g.2, row.triple = g.1) : runs (G.flatMap (·.2)) = G := by
+  induction G with
+  | nil => simp [runs]
+  | cons g G' ih =>
+    have hnd' : g.1 ∉ G'.map (·.1) ∧ (G'.map (·.1)).Nodup := List.nodup_cons.mp (by rw [List.map_cons] at hnd; exact hnd)
+    have ih' := ih hnd'.2 (fun g' hg' => hok g' (by simp [hg']))
+    simp only [List.flatMap_cons]
+    have := runs_block g.1 g.2 (G'.flatMap (·.2)) G' (hok g (by simp)).1 (hok g (by simp)).2 ih' (by
+      intro g' hg'
+      have : g' ∈ G' := List.mem_of_mem_head? hg'
+      intro hc
+      exact hnd'.1 (hc ▸ List.mem_map.mpr ⟨g', this, rfl⟩))
+    rw [this]
+
+theorem flatMap_filter_map {α β γ} (l : List α) (p : α → Bool) (f : α → β) (h : β → List γ) :
+    ((l.filter p).map f).flatMap h = l.flatMap (fun a => if p a then h (f a) else []) := by
+  induction l with
+  | nil => simp
+  | cons a as ih =>
+    rw [List.filter_cons]
+    by_cases hp : p a = true
+    · simp [hp, ih]
+    · simp [hp, ih]
+
+/-- the evaluations that survive the length step, cut to `k` rows -/
+def cutRuns (ints : List IRow) (keep : Triple × List IRow → Bool) (k : Nat) : List (Triple × List IRow) :=
+  ((runs ints).filter keep).map (fun g => (g.1, g.2.take k))
+
+theorem cutRuns_wf (ints : List IRow) (keep : Triple × List IRow → Bool) (k : Nat) (hk : 1 ≤ k)
+    (hs : SortedIds ints) (hw : IdxWF ints) :
+    runs ((cutRuns ints keep k).flatMap (·.2)) = cutRuns ints keep k ∧
+      ∀ g ∈ cutRuns ints keep k, g.2.map (·.idx) = List.range' 1 g.2.length := by
+  have hspec := runs_spec ints
+  constructor
+  · apply runs_blocks
+    · have : (cutRuns ints keep k).map (·.1) = ((runs ints).filter keep).map (·.1) := by
+        simp [cutRuns, Function.comp_def]
+      rw [this]
+      exact (List.filter_sublist.map _).nodup (runs_nodup ints hs)
+    · intro g hg
+      simp only [cutRuns, List.mem_map, List.mem_filter] at hg
+      obtain ⟨g0, ⟨hg0, _⟩, rfl⟩ := hg
+      have h0 := hspec g0 hg0
+      constructor
+      · simp only
+        cases hgl : g0.2 with
+        | nil => exact absurd hgl h0.1
+        | cons a as =>
+          obtain ⟨k', rfl⟩ : ∃ k', k = k' + 1 := ⟨k - 1, by omega⟩
+          simp
+      · intro row hrow
+        exact h0.2 row (List.mem_of_mem_take hrow)
+  · intro g hg
+    simp only [cutRuns, List.mem_map, List.mem_filter] at hg
+    obtain ⟨g0, ⟨hg0, _⟩, rfl⟩ := hg
+    simp only
+    rw [List.map_take, hw g0 hg0, take_range'_1, List.length_take]
+
+theorem globalNIntsS_wf (ints : List IRow) (n : NSpec) (hn : n ≠ .k 0) (hs : SortedIds ints) (hw : IdxWF ints) :
+    SortedIds (globalNIntsS ints n) ∧ IdxWF (globalNIntsS ints n) := by
+  refine ⟨List.Pairwise.sublist (globalNIntsS_sublist ints n) hs, ?_⟩
+  have hspec := runs_spec ints
+  cases n with
+  | min =>
+    unfold globalNIntsS
+    simp only
+    cases hlen : (runs ints).map (fun g => g.2.length) with
+    | nil => exact hw
+    | cons m ms =>
+      simp only
+      have hmin1 : 1 ≤ minOf m ms := by
+        apply le_minOf
+        · have : m ∈ (runs ints).map (fun g => g.2.length) := by rw [hlen]; simp
+          obtain ⟨g, hg, rfl⟩ := List.mem_map.mp this
+          have := (hspec g hg).1
+          cases hgl : g.2 with
+          | nil => exact absurd hgl this
+          | cons a as => simp
+        · intro x hx
+          have : x ∈ (runs ints).map (fun g => g.2.length) := by rw [hlen]; simp [hx]
+          obtain ⟨g, hg, rfl⟩ := List.mem_map.mp this
+          have := (hspec g hg).1
+          cases hgl : g.2 with
+          | nil => exact absurd hgl this
+          | cons a as => simp
+      have heq : (runs ints).flatMap (fun g => g.2.take (minOf m ms)) =
+          (cutRuns ints (fun _ => true) (minOf m ms)).flatMap (·.2) := by
+        rw [cutRuns, flatMap_filter_map]
+        simp
+      rw [heq]
+      obtain ⟨h1, h2⟩ := cutRuns_wf ints (fun _ => true) (minOf m ms) hmin1 hs hw
+      intro g hg
+      rw [h1] at hg
+      exact h2 g hg
+  | k n =>
+    have hn1 : 1 ≤ n := by
+      cases n with
+      | zero => exact absurd rfl hn
+      | succ n => omega
+    unfold globalNIntsS
+    simp only
+    have heq : (runs ints).flatMap (fun g => if g.2.length < n then [] else g.2.take n) =
+        (cutRuns ints (fun g => !decide (g.2.length < n)) n).flatMap (·.2) := by
+      rw [cutRuns, flatMap_filter_map]
+      apply List.flatMap_congr
+      intro g _
+      by_cases hl : g.2.length < n <;> simp [hl]
+    rw [heq]
+    obtain ⟨h1, h2⟩ := cutRuns_wf ints (fun g => !decide (g.2.length < n)) n hn1 hs hw
+    intro g hg
+    rw [h1] at hg
+    exact h2 g hg
+
+
+theorem idxWF_filter (Q : Triple → Bool) (l : List IRow) (hs : SortedIds l) (hw : IdxWF l) :
+    IdxWF (l.filter (fun row => Q row.triple)) := by
+  intro g hg
+  rw [runs_filter Q l hs] at hg
+  exact hw g (List.mem_filter.mp hg).1
+
+/-- what `where_fin` must return is again a well-formed Result in which every parameter row is referenced -/
+theorem whereFinS_wf (r r' : Result) (n : Option NSpec) (lp : Option (List Col × List Col)) (hwf : WF r)
+    (h : whereFinS r n lp = .ok r') : WF r' ∧ AllReferenced r' := by
+  obtain ⟨hs, hu, hw, hrefs⟩ := hwf
+  have key : ∀ ints1 : List IRow, ints1.Sublist r.ints → SortedIds ints1 → IdxWF ints1 →
+      (match n with
+        | none => (Except.ok (restrictTables r ints1) : Except Err Result)
+        | some (.k 0) => .ok (restrictTables r ints1)
+        | some n => .ok (restrictTables r (globalNIntsS ints1 n))) = .ok r' → WF r' ∧ AllReferenced r' := by
+    intro ints1 hsub hs1 hw1 h
+    have fin : ∀ ints2 : List IRow, ints2.Sublist r.ints → SortedIds ints2 → IdxWF ints2 →
+        WF (restrictTables r ints2) ∧ AllReferenced (restrictTables r ints2) := by
+      intro ints2 hsub2 hs2 hw2
+      exact ⟨⟨hs2, restrict_uniqueIds r ints2 hu, hw2,
+        restrict_refsPresent r ints2 (fun row hrow => hsub2.subset hrow) hrefs⟩, restrict_allReferenced r ints2⟩
+    split at h
+    · cases h; exact fin ints1 hsub hs1 hw1
+    · cases h; exact fin ints1 hsub hs1 hw1
+    · rename_i n' hn0 _
+      cases h
+      have hne : n' ≠ .k 0 := fun hc => by subst hc; exact hn0 rfl
+      obtain ⟨h1, h2⟩ := globalNIntsS_wf ints1 n' hne hs1 hw1
+      exact fin _ ((globalNIntsS_sublist _ _).trans hsub) h1 h2
+  unfold whereFinS at h
+  cases lp with
+  | none => exact key r.ints (List.Sublist.refl _) hs hw h
+  | some lp =>
+    obtain ⟨lc, pc⟩ := lp
+    simp only at h
+    cases hix : mkIndexes r lc pc ((runs r.ints).map (·.1)) with
+    | error x => rw [hix] at h; simp at h
+    | ok ix =>
+      rw [hix] at h
+      exact key (groupPIntsS r.ints ix) List.filter_sublist (hs.filter _)
+        (idxWF_filter (fun t => (keptTriplesS ix).contains t) r.ints hs hw) h
+
+
+theorem mem_contains_map {α} (l : List α) (f : α → Nat) (x : Nat) : (l.map f).contains x = true ↔ ∃ a ∈ l, f a = x := by
+  simp [List.contains_eq_mem]
+
+/-- `where(...)` on a parameter table keeps a Result well-formed and fully referenced -/
+theorem whereTbl_wf (r : Result) (tb : Tbl) (j : Option Nat) (vals : List Int) (hwf : WF r) (hall : AllReferenced r) :
+    WF (whereTbl r tb j vals) ∧ AllReferenced (whereTbl r tb j vals) := by
+  obtain ⟨hs, hu, hw, hrefs⟩ := hwf
+  unfold whereTbl
+  cases tb with
+  | env =>
+    simp only
+    split
+    · exact ⟨⟨hs, hu, hw, hrefs⟩, hall⟩
+    · split
+      · exact ⟨⟨hs, hu, hw, hrefs⟩, hall⟩
+      · refine ⟨⟨hs.filter _, ⟨(List.filter_sublist.map _).nodup hu.1, (List.filter_sublist.map _).nodup hu.2.1,
+          (List.filter_sublist.map _).nodup hu.2.2⟩,
+          idxWF_filter (fun t => ((r.envs.filter (rowMatches j vals)).map (·.id)).contains t.1) r.ints hs hw, ?_⟩, ?_⟩
+        · intro row hrow
+          simp only [List.mem_filter] at hrow ⊢
+          obtain ⟨hrow1, hrow2⟩ := hrow
+          obtain ⟨_, ⟨pl, hpl, hl⟩, ⟨pv, hpv, hv⟩⟩ := hrefs row hrow1
+          obtain ⟨pe, hpe, he⟩ := (mem_contains_map _ _ _).mp hrow2
+          refine ⟨⟨pe, by simpa using hpe, he⟩, ⟨pl, ⟨hpl, ?_⟩, hl⟩, ⟨pv, ⟨hpv, ?_⟩, hv⟩⟩
+          · exact (mem_contains_map _ _ _).mpr ⟨row, List.mem_filter.mpr ⟨hrow1, hrow2⟩, hl.symm⟩
+          · exact (mem_contains_map _ _ _).mpr ⟨row, List.mem_filter.mpr ⟨hrow1, hrow2⟩, hv.symm⟩
+        · refine ⟨?_, ?_, ?_⟩
+          · intro p hp
+            obtain ⟨row, hrow, he⟩ := hall.1 p (List.mem_filter.mp hp).1
+            exact ⟨row, List.mem_filter.mpr ⟨hrow, (mem_contains_map _ _ _).mpr ⟨p, hp, he.symm⟩⟩, he⟩
+          · intro p hp
+            obtain ⟨row, hrow, h⟩ := (mem_contains_map _ _ _).mp (List.mem_filter.mp hp).2
+            exact ⟨row, hrow, h⟩
+          · intro p hp
+            obtain ⟨row, hrow, h⟩ := (mem_contains_map _ _ _).mp (List.mem_filter.mp hp).2
+            exact ⟨row, hrow, h⟩
+  | lrn =>
+    simp only
+    split
+    · exact ⟨⟨hs, hu, hw, hrefs⟩, hall⟩
+    · split
+      · exact ⟨⟨hs, hu, hw, hrefs⟩, hall⟩
+      · refine ⟨⟨hs.filter _, ⟨(List.filter_sublist.map _).nodup hu.1, (List.filter_sublist.map _).nodup hu.2.1,
+          (List.filter_sublist.map _).nodup hu.2.2⟩,
+          idxWF_filter (fun t => ((r.lrns.filter (rowMatches j vals)).map (·.id)).contains t.2.1) r.ints hs hw, ?_⟩, ?_⟩
+        · intro row hrow
+          simp only [List.mem_filter] at hrow ⊢
+          obtain ⟨hrow1, hrow2⟩ := hrow
+          obtain ⟨⟨pe, hpe, he⟩, _, ⟨pv, hpv, hv⟩⟩ := hrefs row hrow1
+          obtain ⟨pl, hpl, hl⟩ := (mem_contains_map _ _ _).mp hrow2
+          refine ⟨⟨pe, ⟨hpe, ?_⟩, he⟩, ⟨pl, by simpa using hpl, hl⟩, ⟨pv, ⟨hpv, ?_⟩, hv⟩⟩
+          · exact (mem_contains_map _ _ _).mpr ⟨row, List.mem_filter.mpr ⟨hrow1, hrow2⟩, he.symm⟩
+          · exact (mem_contains_map _ _ _).mpr ⟨row, List.mem_filter.mpr ⟨hrow1, hrow2⟩, hv.symm⟩
+        · refine ⟨?_, ?_, ?_⟩
+          · intro p hp
+            obtain ⟨row, hrow, h⟩ := (mem_contains_map _ _ _).mp (List.mem_filter.mp hp).2
+            exact ⟨row, hrow, h⟩
+          · intro p hp
+            obtain ⟨row, hrow, he⟩ := hall.2.1 p (List.mem_filter.mp hp).1
+            exact ⟨row, List.mem_filter.mpr ⟨hrow, (mem_contains_map _ _ _).mpr ⟨p, hp, he.symm⟩⟩, he⟩
+          · intro p hp
+            obtain ⟨row, hrow, h⟩ := (mem_contains_map _ _ _).mp (List.mem_filter.mp hp).2
+            exact ⟨row, hrow, h⟩
+  | val =>
+    simp only
+    split
+    · exact ⟨⟨hs, hu, hw, hrefs⟩, hall⟩
+    · split
+      · exact ⟨⟨hs, hu, hw, hrefs⟩, hall⟩
+      · refine ⟨⟨hs.filter _, ⟨(List.filter_sublist.map _).nodup hu.1, (List.filter_sublist.map _).nodup hu.2.1,
+          (List.filter_sublist.map _).nodup hu.2.2⟩,
+          idxWF_filter (fun t => ((r.evals.filter (rowMatches j vals)).map (·.id)).contains t.2.2) r.ints hs hw, ?_⟩, ?_⟩
+        · intro row hrow
+          simp only [List.mem_filter] at hrow ⊢
+          obtain ⟨hrow1, hrow2⟩ := hrow
+          obtain ⟨⟨pe, hpe, he⟩, ⟨pl, hpl, hl⟩, _⟩ := hrefs row hrow1
+          obtain ⟨pv, hpv, hv⟩ := (mem_contains_map _ _ _).mp hrow2
+          refine ⟨⟨pe, ⟨hpe, ?_⟩, he⟩, ⟨pl, ⟨hpl, ?_⟩, hl⟩, ⟨pv, by simpa using hpv, hv⟩⟩
+          · exact (mem_contains_map _ _ _).mpr ⟨row, List.mem_filter.mpr ⟨hrow1, hrow2⟩, he.symm⟩
+          · exact (mem_contains_map _ _ _).mpr ⟨row, List.mem_filter.mpr ⟨hrow1, hrow2⟩, hl.symm⟩
+        · refine ⟨?_, ?_, ?_⟩
+          · intro p hp
+            obtain ⟨row, hrow, h⟩ := (mem_contains_map _ _ _).mp (List.mem_filter.mp hp).2
+            exact ⟨row, hrow, h⟩
+          · intro p hp
+            obtain ⟨row, hrow, h⟩ := (mem_contains_map _ _ _).mp (List.mem_filter.mp hp).2
+            exact ⟨row, hrow, h⟩
+          · intro p hp
+            obtain ⟨row, hrow, he⟩ := hall.2.2 p (List.mem_filter.mp hp).1
+            exact ⟨row, List.mem_filter.mpr ⟨hrow, (mem_contains_map _ _ _).mpr ⟨p, hp, he.symm⟩⟩, he⟩
+
+/-- along any chain of `where_fin` and `where` calls the (repaired) code follows the specification -/
+theorem runChain_eq_spec (ss : List Step) : ∀ (r : Result), WF r → AllReferenced r →
+    runChain true ss r = runChainS ss r := by
+  induction ss with
+  | nil => intro r _ _; rfl
+  | cons st ss ih =>
+    intro r hwf hall
+    cases st with
+    | fin n lp =>
+      simp only [runChain, runChainS]
+      rw [filterFin_eq_spec r n lp hwf.1 hwf.2.1 hwf.2.2.1 hwf.2.2.2 (fun _ => hall)]
+      cases h : whereFinS r n lp with
+      | error e => rfl
+      | ok r' =>
+        simp only
+        obtain ⟨h1, h2⟩ := whereFinS_wf r r' n lp hwf h
+        exact ih r' h1 h2
+    | wher tb j vals =>
+      simp only [runChain, runChainS]
+      obtain ⟨h1, h2⟩ := whereTbl_wf r tb j vals hwf hall
+      exact ih _ h1 h2
+
+
 /-! ## primed statements referenced by `Props/C18.lean` -/
 
 theorem moving_average_eq_spec' (vs : List Rat) (span : Option Nat) (w : Weights) (out : List Rat)
